@@ -463,7 +463,7 @@ def c11_cases(tier, seed):
     rng = random.Random(seed * 101 + 7)
     n = 6000 if tier == "thorough" else 800
     cases = []
-    words = [[0x61], [0x62], [0x63], [0x61, 0x0a, 0x62], [0xe9], [0x20, 0x78], [0x5c, 0x6e], [0x64, 0x0d]]
+    words = [[0x61], [0x62], [0x63], [0x61, 0x0a, 0x62], [0xe9], [0x20, 0x78], [0x5c, 0x6e], [0x64, 0x0d], [0x20, 0x20], [0x09], [0x3000]]     # (lines made only of blanks are lines)
     for _ in range(n):
         mx = rng.choice([1, 2, 3, 4, 4, 6, 10])
         igs, igd = int(rng.random() < 0.3), int(rng.random() < 0.5)
